@@ -177,9 +177,15 @@ def run(res, tier):
     for anchor in ("cellBlocks", "particleGroups"):
         if anchor not in tfields:
             raise AnalysisBroken("TbfTree has no member '%s' any more: the reset rule must be re-read" % anchor)
+    done = set()
+    for x in walk(tbf.body(rebuild)):          # rebuild() with its private helpers spliced in
+        if x.get("k") in ("CallExpr", "CXXMemberCallExpr") and tbf.call_base(x) is not None:
+            b0 = strip(tbf.call_base(x))
+            if b0.get("k") in ("MemberExpr", "CXXDependentScopeMemberExpr") and b0.get("name") in ("cellBlocks", "particleGroups") and tbf.callee_name(x) in ("clear", "resize"):
+                done.add("%s.%s(" % (b0["name"], tbf.callee_name(x)) + (")" if tbf.callee_name(x) == "clear" else ""))
     for what in ("cellBlocks.clear()", "particleGroups.clear()", "cellBlocks.resize("):
-        res.instance("C13.4.reset", what, facts.loc(rebuild), "present: %s" % (what in txt))
-        if what not in txt:
+        res.instance("C13.4.reset", what, facts.loc(rebuild), "present: %s" % (what in done))
+        if what not in done:
             res.violation("C13.4.reset", tbf.rel(facts.path_of(rebuild)), "TbfTree::rebuild", what, rebuild["l"][1], "rebuild does not start from empty containers (%s missing): old expansions would survive" % what)
     # tsm forwards to both trees
     t = facts.fn("TbfTreeTsm::rebuild")
